@@ -1233,7 +1233,6 @@ std::unique_ptr<PDU> build_case(Src& s, Ctx& ctx, std::vector<std::string>& prog
     o.allow_wrong_stackings = false;
     o.allow_option_programs = false;   // run below: IPv6 chains and RFC 4884 programs are C05's own
     o.max_payload = ctx.tier ? 1500 : 300;
-    o.radiotap_setters = false;
     Built b = build_packet(s, ctx, o);
     prog = b.program;
     std::unique_ptr<PDU> pdu = std::move(b.pdu);
